@@ -44,7 +44,7 @@ def fnum(p):
 
 # ---------------------------------------------------------------- action values
 def mk_val(d):
-    k, v = d
+    k, v = d[0], d[1]
     if k == "i":
         return int(v)
     if k == "f":
@@ -61,10 +61,84 @@ def mk_val(d):
         return {mk_val(a): mk_val(b) for a, b in v}
     if k == "n":
         return None
+    if k == "w":          # the value wrapped in one of coba's own Dense/Sparse row classes or another Sequence/Mapping flavour
+        inner = mk_val(d[2])
+        w = wrap_row(d[1], inner)
+        same = (list(w) == list(inner) and len(w) == len(inner)) if d[1] in DENSE_WRAPS else (dict(w.items()) == dict(inner) and len(w) == len(inner))
+        if not same:
+            raise RuntimeError("harness: %s does not present %r" % (d[1], inner))
+        return w
     raise ValueError(d)
 
 
+DENSE_WRAPS = ["LazyDense", "LazyDenseCallable", "HeadDense", "EncodeDense", "KeepDense", "LabelDenseFeats", "HashableDense"]
+SPARSE_WRAPS = ["LazySparse", "HeadSparse", "EncodeSparse", "DropSparse", "HashableSparse", "MappingProxyType", "OrderedDict", "UserDict"]
+
+
+def ident(x):
+    return x
+
+
+def wrap_row(kind, v):
+    from coba.pipes import rows as R
+    from coba.primitives import HashableDense, HashableSparse
+    if kind in DENSE_WRAPS:
+        v = list(v)
+        n = len(v)
+        if kind == "LazyDense":
+            return R.LazyDense(v)
+        if kind == "LazyDenseCallable":
+            return R.LazyDense(lambda v=v: v)
+        if kind == "HeadDense":
+            return R.HeadDense(R.LazyDense(v), {"h%d" % i: i for i in range(n)})
+        if kind == "EncodeDense":
+            return R.EncodeDense(R.LazyDense(v), [ident] * n)
+        if kind == "KeepDense":
+            return R.KeepDense(R.LazyDense(v + ["dropped"]), dict(zip(range(n), range(n))), [True] * n + [False], n, None)
+        if kind == "LabelDenseFeats":
+            return R.LabelDense(R.LazyDense(v + ["label"]), n, "c").feats
+        return HashableDense(v)
+    v = dict(v)
+    if kind == "LazySparse":
+        return R.LazySparse(v)
+    if kind == "HeadSparse":
+        return R.HeadSparse(R.LazySparse(v), {k: k for k in v}, {k: k for k in v})
+    if kind == "EncodeSparse":
+        return R.EncodeSparse(R.LazySparse(v), {}, set())
+    if kind == "DropSparse":
+        return R.DropSparse(R.LazySparse(v), set())
+    if kind == "HashableSparse":
+        return HashableSparse(v)
+    if kind == "MappingProxyType":
+        from types import MappingProxyType
+        return MappingProxyType(v)
+    if kind == "OrderedDict":
+        from collections import OrderedDict
+        return OrderedDict(v)
+    if kind == "UserDict":
+        from collections import UserDict
+        return UserDict(v)
+    raise ValueError(kind)
+
+
+WRAP_SRC = {"LazyDense": "R.LazyDense(%s)", "LazyDenseCallable": "R.LazyDense(lambda: %s)",
+            "HeadDense": "(lambda v: R.HeadDense(R.LazyDense(v), {'h%%d' %% i: i for i in range(len(v))}))(%s)",
+            "EncodeDense": "(lambda v: R.EncodeDense(R.LazyDense(v), [lambda x: x] * len(v)))(%s)",
+            "KeepDense": "(lambda v: R.KeepDense(R.LazyDense(v + ['dropped']), dict(zip(range(len(v)), range(len(v)))), [True] * len(v) + [False], len(v), None))(%s)",
+            "LabelDenseFeats": "(lambda v: R.LabelDense(R.LazyDense(v + ['label']), len(v), 'c').feats)(%s)",
+            "HashableDense": "HashableDense(%s)", "LazySparse": "R.LazySparse(%s)",
+            "HeadSparse": "(lambda v: R.HeadSparse(R.LazySparse(v), {k: k for k in v}, {k: k for k in v}))(%s)",
+            "EncodeSparse": "R.EncodeSparse(R.LazySparse(%s), {}, set())", "DropSparse": "R.DropSparse(R.LazySparse(%s), set())",
+            "HashableSparse": "HashableSparse(%s)", "MappingProxyType": "MappingProxyType(%s)", "OrderedDict": "OrderedDict(%s)", "UserDict": "UserDict(%s)"}
+SNIPPET_IMPORTS = ("import coba.pipes.rows as R; from coba.primitives import HashableDense, HashableSparse; "
+                   "from types import MappingProxyType; from collections import OrderedDict, UserDict")
+
+
 def py_lit(d):
+    """Python source of the value"""
+    if d[0] == "w":
+        inner = mk_val(d[2])
+        return WRAP_SRC[d[1]] % repr(list(inner) if d[1] in DENSE_WRAPS else dict(inner))
     return repr(mk_val(d))
 
 
@@ -95,6 +169,14 @@ CATALOG = [
     [["d", []]],
     [["d", [[["s", "x"], ["s", "y"]]]]],
 ]
+for _cls in CATALOG:
+    _base = _cls[0]
+    if not _base[1]:
+        continue          # an empty row object equals every empty container ('' == [] == {} for coba's Dense): would duplicate classes
+    if _base[0] in ("l", "t"):
+        _cls.extend([["w", w_, _base] for w_ in DENSE_WRAPS])
+    elif _base[0] == "d":
+        _cls.extend([["w", w_, _base] for w_ in SPARSE_WRAPS])
 CONTEXTS = [["n", None], ["i", 1], ["s", "ctx"], ["l", [["i", 1], ["f", "2.5"]]], ["d", [[["s", "u"], ["i", 1]]]], ["t", [["i", 0], ["i", 1]]]]
 
 
@@ -359,6 +441,10 @@ def run_bandit(case, driver):
             seen.update(ids)
             if any(r_[1] != 0 for r_ in refs):
                 tags.append("actions:alias-spelling")
+            for r_ in refs:
+                d_ = case["pool"][r_[0]][r_[1]]
+                if d_[0] == "w":
+                    tags.append("rows:" + d_[1])
             if len(set(ids)) != len(ids):
                 tags.append("dup-actions")
         if name == "predict":
@@ -653,6 +739,10 @@ def run_corral(case, driver):
         actions = [resolve(case, r) for r in refs]
         ctx = mk_val(op.get("ctx", ["n", None]))
         tags.append("n:%d" % min(len(actions), 6))
+        for r_ in refs:
+            d_ = case["pool"][r_[0]][r_[1]]
+            if d_[0] == "w":
+                tags.append("rows:" + d_[1])
         # ---- score of one action (draws from the base learners)
         if op.get("score") is not None:
             sa = op["score"] % len(actions)
@@ -960,7 +1050,15 @@ def gen_pool(rng, nmax=7):
         cls = rng.sample(list(range(18, 24)), min(k, 6))           # sparse only
     else:
         cls = rng.sample(list(range(len(CATALOG))), k)
-    return [CATALOG[i] for i in cls]
+    pool = [list(CATALOG[i]) for i in cls]
+    if rng.chance(0.35):      # what a real pipeline delivers: every dense / sparse action is one of coba's row objects (alias 0 = the default spelling)
+        for c_ in pool:
+            wr = [a_ for a_ in c_ if a_[0] == "w"]
+            if wr:
+                w0 = rng.choice(wr)
+                c_.remove(w0)
+                c_.insert(0, w0)
+    return pool
 
 
 def ref(rng, pool, c):
@@ -1129,7 +1227,7 @@ def gen_corral(rng, tier, search=False):
 def snippet_bandit(case):
     spec = case["learner"]
     lines = ["import sys, os, math; sys.path.insert(0, os.environ.get('COBA_REPO', '/repo'))",
-             "from coba.learners import *", "from coba.learners import MisguidedLearner",
+             "from coba.learners import *", "from coba.learners import MisguidedLearner", SNIPPET_IMPORTS,
              "L = " + learner_src(spec), "last = None", "A = []   # the caller's action list"]
     sh = bool(case.get("shared_list"))
     for op in case["hist"]:
@@ -1155,7 +1253,7 @@ def snippet_bandit(case):
 
 def snippet_corral(case):
     lines = ["import sys, os, math, signal; sys.path.insert(0, os.environ.get('COBA_REPO', '/repo'))",
-             "from coba.learners import *", "from coba.learners import MisguidedLearner",
+             "from coba.learners import *", "from coba.learners import MisguidedLearner", SNIPPET_IMPORTS,
              "top = " + corral_src(case), "c = top", "while not hasattr(c, '_ps'): c = c._learner",
              "signal.signal(signal.SIGALRM, lambda *a: (_ for _ in ()).throw(TimeoutError('learn did not return')))"]
     for k, op in enumerate(case["hist"]):
@@ -1186,7 +1284,10 @@ class C16(Property):
     workers = 8
     rule = ("70% histories (1-60 calls: predict / learn-what-was-predicted / score vector / learn of an arbitrary pool action / single score) on one of "
             "BanditEpsilon, BanditUCB, Fixed, Random, optionally under 1-2 Misguided wrappers, over pools of 1-7 pairwise-unequal actions (ints, floats, bools, "
-            "strings, dense lists/tuples, sparse dicts, with ==-equal aliases such as 1/1.0/True and [1,2]/(1,2)), action sets stable or changing per call "
+            "strings, dense lists/tuples, sparse dicts, with ==-equal aliases such as 1/1.0/True and [1,2]/(1,2), and every dense/sparse action also as one of "
+            "coba's own row objects LazyDense (eager and callable), HeadDense, EncodeDense, KeepDense, LabelDense.feats (DropOne), HashableDense, LazySparse, "
+            "HeadSparse, EncodeSparse, DropSparse, HashableSparse or a MappingProxyType / OrderedDict / UserDict; in 35% of the pools the row object is the default "
+            "spelling), action sets stable or changing per call "
             "(never-seen and disappearing actions), rewards 0/1/dyadic/extreme, epsilon in {0,1,1e-9,.05,...}, seeds incl. those whose k-th uniform is 0 or 1-2^-30; "
             "30% Corral histories (1-60 predict+learn rounds over 1-5 such base learners, eta in [0.01,50], T in {inf,1.5,2,2.5,3,10,100,1000}, both modes, "
             "on-policy / least-likely-action / logged (probabilities down to 1e-12) feedback, 5 s limit per learn; 35% of them with 1-2 base learners that "
